@@ -6,9 +6,9 @@
    Structures are identified by their offset in the section.  [repr s t] (Spec/ResTree.v) is the format's
    denotation: "the bytes at [rt_off t] represent the tree t".  *)
 From PV.Model Require Import Machine Mapping Views Resources.
-From PV.Spec Require Import ResTree Ico.
-From PV.Proofs Require ResourcesProofs.
-Import ResourcesProofs.
+From PV.Spec Require Import ResTree Ico SafetySpec ResSafety.
+From PV.Proofs Require ResourcesProofs ResourcesDeep ResourcesCount ResourcesSafety.
+Import ResourcesProofs ResourcesDeep ResourcesCount.
 
 (* ---- entry arrays: named first, ids last, at off + 16 + 8 i ---- *)
 Theorem C12_entries_named_then_ids : forall s off, entries s off = named_entries s off ++ id_entries s off.
@@ -80,6 +80,40 @@ Theorem C12_fsck_iff : forall s,
 Proof. exact ResourcesProofs.fsck_iff. Qed.
 Print Assumptions C12_fsck_iff.
 
+(* ---- 3a. "the consistency check succeeds on every well-formed tree": a tree the bytes denote (every name, reference and
+        data range valid) whose 8-byte entry records are pairwise disjoint - no directory referenced twice, no overlapping
+        entry arrays - has at most len/8 entries, so fsck accepts it whenever it is nested at most 32 directories deep
+        (the depth limit of the F16 repair, which the tree printer always had) ---- *)
+Theorem C12_wellformed_size : forall s o kids lvl, repr s (RDir o kids) = true ->
+  disjoint_records (entry_offsets (flatten s lvl (RDir o kids))) -> size (RDir o kids) <= rs_len s / 8.
+Proof. exact ResourcesSafety.wellformed_size. Qed.
+Print Assumptions C12_wellformed_size.
+Theorem C12_fsck_wellformed : forall s kids, repr s (RDir 0 kids) = true -> (height (RDir 0 kids) <= FSCK_DEPTH)%nat ->
+  disjoint_records (entry_offsets (flatten s 0 (RDir 0 kids))) -> fsck s = Ok tt.
+Proof. exact ResourcesSafety.fsck_wellformed. Qed.
+Print Assumptions C12_fsck_wellformed.
+Example C12_wellformed_nonvacuous :
+  entry_offsets (flatten ex3_sec 0 ex3_tree) = [16; 40; 64] /\ disjoint_records (entry_offsets (flatten ex3_sec 0 ex3_tree)) /\
+  fsck ex3_sec = Ok tt.
+Proof. exact ResourcesSafety.ex3_wellformed. Qed.
+
+(* ---- 3c. "... and fails when any reachable reference is out of bounds or a directory contains itself".  [dir_path s n 0 o]
+        (Spec/ResTree.v): o is reached from the root through n directory entries, read off the bytes.  Any section in
+        which a reachable directory contains itself (directly or through descendants) is rejected; in an accepted
+        section every reachable directory is valid and every entry of it has a valid name, target and data range ---- *)
+Theorem C12_fsck_rejects_cycles : forall s, cyclic s -> fsck s <> Ok tt.
+Proof. exact ResourcesDeep.fsck_rejects_cycles. Qed.
+Print Assumptions C12_fsck_rejects_cycles.
+Theorem C12_fsck_ok_reachable : forall s n o, fsck s = Ok tt -> dir_path s n 0 o ->
+  dir_try_from s o = Ok o /\
+  forall e, In e (entries s o) ->
+    (exists nm, e_name s e = Ok nm) /\
+    (exists en, e_entry s e = Ok en /\ match en with EData d => exists rg, data_bytes s d = Ok rg | EDir _ => True end).
+Proof. exact ResourcesDeep.fsck_ok_reachable. Qed.
+Print Assumptions C12_fsck_ok_reachable.
+Example C12_cyclic_nonvacuous : cyclic f16_witness.
+Proof. exact ResourcesDeep.f16_cyclic. Qed.
+
 (* ---- 2. name matching is the documented rule ('#<id>' decimal, predefined '#TYPE', exact UTF-16 incl. surrogate
         pairs), and lookup returns the first entry in stored order whose stored name matches ---- *)
 Theorem C12_name_matching : forall n q, stored n -> valid_query q -> name_eq n q = name_matches n q.
@@ -133,18 +167,198 @@ Theorem C12_F26_group_write_orig_refuted :
 Proof. exact ResourcesProofs.group_write_orig_refuted. Qed.
 Print Assumptions C12_F26_group_write_orig_refuted.
 
-(* OPEN: C12_traverse_repr_converse : forall s d b items b', walk d s 0 0 b = (items, b') -> items_clean items = true ->
-     exists kids, repr s (RDir 0 kids) = true /\ items = flatten s 0 (RDir 0 kids)
-   (the existence of the tree is proved through fsck: C12_fsck_iff; the equality of the listing is not) *)
-(* OPEN: C12_walk_sound : forall s d b, dir_at s 0 = true -> walk_sound s (fst (walk d s 0 0 b)) = true
-   (the extracted oracle accepts every listing of the model; evaluated at run time only) *)
-(* OPEN: C12_lookup_on_listing : forall s o kids q, repr s (RDir o kids) = true -> sec_ok s -> valid_query q ->
-     dir_get 48 s o q = t_get_ent lvl (flatten s lvl (RDir o kids)) q
-   (the listing-level lookup functions of the Spec used by the oracle; and likewise t_find_resource, t_find_resource_ex,
-    t_find_parts for find_resource, find_resource_ex, find_path) *)
-(* OPEN: C12_display_roundtrip : forall id, id < W32 -> eq_string (NId id) (display_id id) = true *)
-(* OPEN: C12_fsck_work_bound : the number of entries fsck_dir visits is at most its budget (len/8); holds by
-   construction of the budget counter, not stated as a theorem about an instrumented function *)
+(* ---- 1b. the converse: a traversal (any depth, any budget) of an accepted directory that lists only valid names,
+        references and data ranges and is neither cut nor stopped IS the depth-first listing of a tree the bytes denote;
+        the tree is no deeper than the depth given and the budget consumed is its size.  [dir_at s o] is what
+        Directory::try_from / root() establish (walk itself does not look at the header: C12_traverse_converse_needs_root) ---- *)
+Theorem C12_traverse_repr_converse : forall s d o lvl b items b',
+  dir_at s o = true -> walk d s o lvl b = (items, b') -> items_clean items = true ->
+  exists kids, repr s (RDir o kids) = true /\ (height (RDir o kids) <= d)%nat /\ size (RDir o kids) + b' = b /\
+               items = flatten s lvl (RDir o kids).
+Proof. exact ResourcesDeep.walk_repr_converse. Qed.
+Print Assumptions C12_traverse_repr_converse.
+
+Theorem C12_traverse_clean_iff : forall s d o lvl b items b',
+  dir_at s o = true ->
+  (walk d s o lvl b = (items, b') /\ items_clean items = true <->
+   exists kids, repr s (RDir o kids) = true /\ (height (RDir o kids) <= d)%nat /\ size (RDir o kids) + b' = b /\
+                items = flatten s lvl (RDir o kids)).
+Proof. exact ResourcesDeep.walk_clean_iff. Qed.
+Print Assumptions C12_traverse_clean_iff.
+
+Theorem C12_traverse_converse_needs_root :
+  walk 1 empty_sec 0 0 0 = ([], 0) /\ items_clean [] = true /\ (forall kids, repr empty_sec (RDir 0 kids) = false).
+Proof. exact ResourcesDeep.walk_converse_needs_root. Qed.
+Print Assumptions C12_traverse_converse_needs_root.
+
+(* ---- 1c. the run-time oracle is the reflection of a theorem: [walk_sound] (Spec/ResTree.v; extracted and evaluated by
+        the check on the IMPLEMENTATION's listing) accepts every listing the model produces - any bytes, any depth, any
+        budget, cut or stopped, with invalid names, dangling references and bad data ranges in it ---- *)
+Theorem C12_walk_sound : forall s d b, dir_at s 0 = true -> walk_sound s (fst (walk d s 0 0 b)) = true.
+Proof. exact ResourcesDeep.walk_sound_model. Qed.
+Print Assumptions C12_walk_sound.
+Theorem C12_walk_sound_root : forall s r d b, root s = Ok r -> walk_sound s (fst (walk d s r 0 b)) = true.
+Proof. exact ResourcesDeep.walk_sound_root. Qed.
+Print Assumptions C12_walk_sound_root.
+
+(* ---- 2b. lookups return the same entries a full traversal finds.  The Spec's lookups are read off a listing
+        (Spec/ResTree.v part 4: "the first entry of the traversal, at that level, whose name matches", then the listing
+        below it); the check evaluates them on the IMPLEMENTATION's listing.  For every complete (neither cut nor stopped)
+        listing of the root the model produces - the entries in it may be invalid - and in particular for the depth-first
+        listing of every section that denotes a tree: get, [type, name] -> first language, [type, name, language], rooted
+        paths, manifest(), version_info(), GroupResource::image(id), icons() and cursors() are the listing's answer.
+        [valid_parts parts] = every component a sequence of Unicode scalar values. ---- *)
+Theorem C12_lookups_on_traversal : forall s d b,
+  sec_ok s -> dir_at s 0 = true -> complete (fst (walk d s 0 0 b)) = true ->
+  let l := fst (walk d s 0 0 b) in
+  (forall q, valid_query q -> dir_get 48 s 0 q = t_get_ent 0 l q) /\
+  (forall a b, valid_query a -> valid_query b -> find_resource 48 s a b = t_find_resource l a b) /\
+  (forall a b c, valid_query a -> valid_query b -> valid_query c -> find_resource_ex 48 s a b c = t_find_resource_ex l a b c) /\
+  (forall parts, valid_parts parts -> find_path 48 s true parts = t_find_parts 0 (FOk (EDir 0)) (Some l) parts) /\
+  manifest s = (rg <-- t_manifest l ;; if utf8_valid (sec_bytes s (r_off rg) (r_len rg)) then FOk rg else FErr (FPe EEncoding)) /\
+  version_info s = (rg <-- t_find_resource l (NId 16) (NId 1) ;;
+                    if aligned_to 4 (wadd64 (rs_addr s) (r_off rg)) then FOk rg else FErr (FPe EMisaligned)) /\
+  (forall g id, g_image s g id = t_find_resource l (NId (if g_type s g =? 1 then 3 else 1)) (NId id)) /\
+  (forall ty, group_list s ty = map (fun r => x <-- r ;; g <-- lift (group_new s (snd x)) ;; FOk (fst x, g)) (t_groups l ty)).
+Proof. exact ResourcesDeep.lookups_on_walk. Qed.
+Print Assumptions C12_lookups_on_traversal.
+
+Theorem C12_lookups_on_tree : forall s kids,
+  sec_ok s -> repr s (RDir 0 kids) = true ->
+  let l := flatten s 0 (RDir 0 kids) in
+  (forall q, valid_query q -> dir_get 48 s 0 q = t_get_ent 0 l q) /\
+  (forall a b, valid_query a -> valid_query b -> find_resource 48 s a b = t_find_resource l a b) /\
+  (forall a b c, valid_query a -> valid_query b -> valid_query c -> find_resource_ex 48 s a b c = t_find_resource_ex l a b c) /\
+  (forall parts, valid_parts parts -> find_path 48 s true parts = t_find_parts 0 (FOk (EDir 0)) (Some l) parts) /\
+  manifest s = (rg <-- t_manifest l ;; if utf8_valid (sec_bytes s (r_off rg) (r_len rg)) then FOk rg else FErr (FPe EEncoding)) /\
+  version_info s = (rg <-- t_find_resource l (NId 16) (NId 1) ;;
+                    if aligned_to 4 (wadd64 (rs_addr s) (r_off rg)) then FOk rg else FErr (FPe EMisaligned)) /\
+  (forall g id, g_image s g id = t_find_resource l (NId (if g_type s g =? 1 then 3 else 1)) (NId id)) /\
+  (forall ty, group_list s ty = map (fun r => x <-- r ;; g <-- lift (group_new s (snd x)) ;; FOk (fst x, g)) (t_groups l ty)).
+Proof. exact ResourcesDeep.lookups_on_tree. Qed.
+Print Assumptions C12_lookups_on_tree.
+
+(* get in any directory, at any level of the tree *)
+Theorem C12_lookup_on_listing : forall s o kids lvl q, sec_ok s -> valid_query q -> repr s (RDir o kids) = true ->
+  dir_get 48 s o q = t_get_ent lvl (flatten s lvl (RDir o kids)) q.
+Proof. exact ResourcesDeep.dir_get_on_tree. Qed.
+Print Assumptions C12_lookup_on_listing.
+Theorem C12_lookup_on_traversal : forall s d o lvl b q, sec_ok s -> valid_query q -> complete (fst (walk d s o lvl b)) = true ->
+  dir_get 48 s o q = t_get_ent lvl (fst (walk d s o lvl b)) q.
+Proof. exact ResourcesDeep.dir_get_on_walk. Qed.
+Print Assumptions C12_lookup_on_traversal.
+
+(* ---- 2c. Display / eq round trip for EVERY id (after the F29 repair): the text `Name::Id(id)` displays as - '#' and the
+        decimal digits of id - compares equal to `Name::Id(id)` through eq_string and through PartialEq in both argument
+        orders, is a match under the documented rule, and equals no other id ---- *)
+Theorem C12_display_roundtrip : forall id, id < W32 ->
+  eq_string (NId id) (display_id id) = true /\
+  name_eq (NId id) (NStr (display_id id)) = true /\ name_eq (NStr (display_id id)) (NId id) = true /\
+  name_matches (NId id) (NStr (display_id id)) = true.
+Proof. exact ResourcesDeep.display_roundtrip. Qed.
+Print Assumptions C12_display_roundtrip.
+Theorem C12_display_is_decimal : forall id, id < W32 ->
+  exists c r, display_id id = 35 :: c :: r /\ forallb digit (c :: r) = true /\ decimal_value (c :: r) 0 = id.
+Proof. exact ResourcesDeep.display_id_spec. Qed.
+Print Assumptions C12_display_is_decimal.
+Theorem C12_display_injective : forall id id', id < W32 -> id' < W32 -> eq_string (NId id') (display_id id) = true -> id' = id.
+Proof. exact ResourcesDeep.display_injective. Qed.
+Print Assumptions C12_display_injective.
+
+(* ---- 3b. explicit step counts (the polynomial bound of C03).  [fsck_c] / [fsck_dir_c] (Model/Resources.v) are fsck /
+        fsck_dir instrumented with ghost counters: number of directory entries visited, deepest nesting of directories
+        entered.  They compute the same result, and on ANY bytes the consistency check visits at most len/8 entries and
+        nests at most 32 deep; a successful check of a directory visits exactly (budget - remaining budget) entries.
+        The traversal lists exactly (budget - remaining budget) entries, all at levels below lvl + depth; the tree printer
+        writes at most 1 + len/8 lines. ---- *)
+Theorem C12_fsck_counted : forall s,
+  fst (fsck_c s) = fsck s /\ c_steps (snd (fsck_c s)) <= rs_len s / 8 /\ (c_depth (snd (fsck_c s)) <= 32)%nat.
+Proof. exact ResourcesCount.fsck_counted. Qed.
+Print Assumptions C12_fsck_counted.
+Theorem C12_fsck_dir_counted : forall s d o b,
+  fst (fsck_dir_c d s o b) = fsck_dir d s o b /\ c_steps (snd (fsck_dir_c d s o b)) <= b /\ (c_depth (snd (fsck_dir_c d s o b)) <= d)%nat /\
+  (forall b', fsck_dir d s o b = Ok b' -> c_steps (snd (fsck_dir_c d s o b)) + b' = b).
+Proof. exact ResourcesCount.fsck_dir_counted. Qed.
+Print Assumptions C12_fsck_dir_counted.
+Theorem C12_walk_count : forall s d o lvl b, count_items (fst (walk d s o lvl b)) + snd (walk d s o lvl b) = b.
+Proof. exact ResourcesCount.walk_count. Qed.
+Print Assumptions C12_walk_count.
+Theorem C12_walk_levels : forall s d o lvl b, lvl_lt (lvl + N.of_nat d) (fst (walk d s o lvl b)) = true.
+Proof. exact ResourcesCount.walk_levels. Qed.
+Print Assumptions C12_walk_levels.
+Theorem C12_display_lines_bound : forall s, display_lines s <= 1 + rs_len s / 8.
+Proof. exact ResourcesCount.display_lines_bound. Qed.
+Print Assumptions C12_display_lines_bound.
+
+(* ---- 5. memory safety of the borrows (C01 vocabulary, Spec/SafetySpec.v + Spec/ResSafety.v): every reference and slice
+        the resources API hands out lies inside the section bytes and its ADDRESS is aligned for its type - for any
+        bytes, length, section address and directory RVA.  [sec_typed s a r] = typed_safe (rs_addr s) (rs_len s) a r;
+        [dir_safe s o] = the 16-byte header at o and the three entry arrays behind it (all / named / id), 4-aligned. ---- *)
+Theorem C12_try_from_safe : forall s off o, dir_try_from s off = Ok o -> o = off /\ dir_safe s o.
+Proof. exact ResourcesSafety.dir_try_from_safe. Qed.
+Print Assumptions C12_try_from_safe.
+(* every &IMAGE_RESOURCE_DIRECTORY_ENTRY that entries(), named_entries() and id_entries() yield *)
+Theorem C12_entry_refs_safe : forall s o e, dir_safe s o ->
+  In e (entries s o) \/ In e (named_entries s o) \/ In e (id_entries s o) ->
+  sec_typed s 4 (reg e 8) /\ o + 16 <= e /\ e + 8 <= o + 16 + 8 * (n_named s o + n_ids s o).
+Proof. exact ResourcesSafety.entry_refs_safe. Qed.
+Print Assumptions C12_entry_refs_safe.
+(* DirectoryEntry::name: the u16 length prefix and the &[u16] behind it *)
+Theorem C12_name_safe : forall s e ws, e_name s e = Ok (NWide ws) ->
+  exists o n, sec_typed s 2 (reg (o - 2) 2) /\ sec_typed s 2 (reg o (2 * n)) /\ 2 <= o /\ ws = words s o n /\ lenN ws = n.
+Proof. exact ResourcesSafety.e_name_safe. Qed.
+Print Assumptions C12_name_safe.
+(* DirectoryEntry::entry: a Directory, or the &IMAGE_RESOURCE_DATA_ENTRY *)
+Theorem C12_entry_safe : forall s e en, e_entry s e = Ok en ->
+  match en with EDir o => dir_safe s o | EData o => sec_typed s 4 (reg o 16) end.
+Proof. exact ResourcesSafety.e_entry_safe. Qed.
+Print Assumptions C12_entry_safe.
+(* DataEntry::bytes *)
+Theorem C12_data_bytes_safe : forall s o rg, data_bytes s o = Ok rg -> region_in (rs_len s) rg /\ r_len rg = data_size s o.
+Proof. exact ResourcesSafety.data_bytes_safe. Qed.
+Print Assumptions C12_data_bytes_safe.
+(* GroupResource::new on a slice of the section: &GRPICONDIR, the &[GRPICONDIRENTRY] of entries(), each entry *)
+Theorem C12_group_new_safe : forall s g g', region_in (rs_len s) g -> group_new s g = Ok g' ->
+  g' = g /\ sec_typed s 2 (reg (r_off g) 6) /\ sec_typed s 2 (reg (r_off g + 6) (14 * g_count s g)) /\
+  6 + 14 * g_count s g = r_len g /\
+  (forall e, In e (g_entries s g) -> sec_typed s 2 (reg e 14) /\ r_off g + 6 <= e /\ e + 14 <= r_off g + r_len g).
+Proof. exact ResourcesSafety.group_new_safe. Qed.
+Print Assumptions C12_group_new_safe.
+(* the byte slices of the find API and the helpers *)
+Theorem C12_find_resource_safe : forall lo s a b rg, find_resource lo s a b = FOk rg -> region_in (rs_len s) rg.
+Proof. exact ResourcesSafety.find_resource_safe. Qed.
+Print Assumptions C12_find_resource_safe.
+Theorem C12_find_resource_ex_safe : forall lo s a b c rg, find_resource_ex lo s a b c = FOk rg -> region_in (rs_len s) rg.
+Proof. exact ResourcesSafety.find_resource_ex_safe. Qed.
+Print Assumptions C12_find_resource_ex_safe.
+Theorem C12_manifest_safe : forall s rg, manifest s = FOk rg -> region_in (rs_len s) rg.
+Proof. exact ResourcesSafety.manifest_safe. Qed.
+Print Assumptions C12_manifest_safe.
+Theorem C12_version_info_safe : forall s rg, version_info s = FOk rg -> sec_typed s 4 rg.
+Proof. exact ResourcesSafety.version_info_safe. Qed.
+Print Assumptions C12_version_info_safe.
+Theorem C12_group_image_safe : forall s g id rg, g_image s g id = FOk rg -> region_in (rs_len s) rg.
+Proof. exact ResourcesSafety.g_image_safe. Qed.
+Print Assumptions C12_group_image_safe.
+Theorem C12_group_list_safe : forall s ty nm g, In (FOk (nm, g)) (group_list s ty) ->
+  region_in (rs_len s) g /\ group_new s g = Ok g /\
+  match nm with NWide ws => exists o n, sec_typed s 2 (reg o (2 * n)) /\ ws = words s o n | _ => True end.
+Proof. exact ResourcesSafety.group_list_safe. Qed.
+Print Assumptions C12_group_list_safe.
+(* Pe::resources(): the section is a slice of the mapped image, no longer than the directory Size *)
+Theorem C12_pe_resources_safe : forall img_addr img_len get rva size s, placed img_addr img_len ->
+  pe_resources img_addr img_len get rva size = Ok s ->
+  exists off, rs_addr s = img_addr + off /\ off + rs_len s <= img_len /\ rs_len s <= size /\ rs_va s = rva /\
+              (forall i, rs_get s i = get (off + i)).
+Proof. exact ResourcesSafety.pe_resources_safe. Qed.
+Print Assumptions C12_pe_resources_safe.
+(* every reference carried by every item of every traversal below an accepted directory / below the root *)
+Theorem C12_walk_refs_safe : forall s d o lvl b, dir_safe s o -> Forall (witem_safe s) (fst (walk d s o lvl b)).
+Proof. exact ResourcesSafety.walk_safe. Qed.
+Print Assumptions C12_walk_refs_safe.
+Theorem C12_walk_root_refs_safe : forall s r d b, root s = Ok r -> Forall (witem_safe s) (fst (walk d s r 0 b)).
+Proof. exact ResourcesSafety.walk_root_safe. Qed.
+Print Assumptions C12_walk_root_refs_safe.
 
 Example C12_nonvacuous :
   repr ex_sec ex_tree = true /\ fsck ex_sec = Ok tt /\
@@ -153,3 +367,17 @@ Example C12_nonvacuous :
                                       i_tgt := TData 24 (Ok {| r_off := 40; r_len := 4 |}) 4 1252 |}] /\
   dir_get 48 ex_sec 0 (NStr [35; 48; 55]) = FOk (EData 24) /\ dir_get 48 ex_sec 0 (NStr [35; 56]) = FErr FNotFound.
 Proof. exact ResourcesProofs.ex_nonvacuous. Qed.
+
+Example C12_nonvacuous_deep :
+  repr ex3_sec ex3_tree = true /\
+  walk 32 ex3_sec 0 0 11 = (flatten ex3_sec 0 ex3_tree, 8) /\ items_clean (flatten ex3_sec 0 ex3_tree) = true /\
+  walk_sound ex3_sec (fst (walk 32 ex3_sec 0 0 11)) = true /\
+  walk_sound ex3_sec (fst (walk 2 ex3_sec 0 0 11)) = true /\ complete (fst (walk 2 ex3_sec 0 0 11)) = false /\
+  find_resource 48 ex3_sec (NId 24) (NStr [35; 49]) = FOk {| r_off := 88; r_len := 4 |} /\
+  t_find_resource (flatten ex3_sec 0 ex3_tree) (NId 24) (NStr [35; 49]) = FOk {| r_off := 88; r_len := 4 |} /\
+  t_find_resource_ex (flatten ex3_sec 0 ex3_tree) (NStr [35; 77; 65; 78; 73; 70; 69; 83; 84]) (NId 1) (NId 1033) = FOk {| r_off := 88; r_len := 4 |} /\
+  t_find_parts 0 (FOk (EDir 0)) (Some (flatten ex3_sec 0 ex3_tree)) [[35; 50; 52]; [35; 49]; [35; 49; 48; 51; 51]] = FOk (EData 72) /\
+  manifest ex3_sec = FOk {| r_off := 88; r_len := 4 |} /\ t_manifest (flatten ex3_sec 0 ex3_tree) = FOk {| r_off := 88; r_len := 4 |} /\
+  fsck_c ex3_sec = (Ok tt, {| c_steps := 3; c_depth := 3 |}) /\
+  display_id 4294967295 = [35; 52; 50; 57; 52; 57; 54; 55; 50; 57; 53] /\ display_lines ex3_sec = 4.
+Proof. exact ResourcesDeep.ex_nonvacuous_deep. Qed.
